@@ -1021,6 +1021,32 @@ impl fmt::Display for EvalError {
 
 impl Error for EvalError {}
 
+/// Verification hooks (only compiled with `--cfg rten_verif`): wrappers around
+/// module-private items so an external harness can call them directly.
+#[cfg(rten_verif)]
+#[doc(hidden)]
+pub mod verif_hooks {
+    use super::SymExpr;
+
+    pub use super::div_ceil;
+
+    pub fn canonicalize(e: &SymExpr) -> SymExpr {
+        e.canonicalize()
+    }
+
+    pub fn simplify_canonical(e: SymExpr) -> SymExpr {
+        e.simplify_canonical()
+    }
+
+    pub fn remove_common_factors(lhs: SymExpr, rhs: SymExpr) -> (SymExpr, SymExpr) {
+        super::remove_common_factors(lhs, rhs)
+    }
+
+    pub fn gcd(a: i32, b: i32) -> Option<i32> {
+        super::gcd(a, b)
+    }
+}
+
 #[cfg(test)]
 mod tests {
     use std::collections::hash_map::DefaultHasher;
